@@ -146,14 +146,21 @@ class Events:
                     x, y = sorted([a, b])
                     pred = "EQ[%s,%s]" % (x, y)
                     val = truth if op == "Eq" else (not truth)
-                elif op == "Lt":
-                    pred, val = "LT[%s,%s]" % (a, b), truth
-                elif op == "Ge":
-                    pred, val = "LT[%s,%s]" % (a, b), not truth
-                elif op == "Gt":
-                    pred, val = "LT[%s,%s]" % (b, a), truth
-                else:  # Le
-                    pred, val = "LT[%s,%s]" % (b, a), not truth
+                else:
+                    # normal form  x < y ; comparisons with an integer constant become  x < K(n)
+                    if op == "Lt":
+                        x, y, val = a, b, truth
+                    elif op == "Ge":
+                        x, y, val = a, b, not truth
+                    elif op == "Gt":
+                        x, y, val = b, a, truth
+                    else:  # Le
+                        x, y, val = b, a, not truth
+                    kx, ky = _intconst(x), _intconst(y)
+                    if kx is not None and ky is None:
+                        # K < y  ==  not (y < K+1)
+                        x, y, val = y, "K%d" % (kx + 1), not val
+                    pred = "LT[%s,%s]" % (x, y)
             else:
                 pred = "BR[%s]" % self.roles.of_origin(o)
                 val = truth
@@ -177,6 +184,12 @@ class Events:
                 return "SW[%s]=%s" % (role, "1" if explicit == ["0"] else "0")
             return "SW[%s]!=%s" % (role, "|".join(explicit)) if not vals else "SW[%s]=%s|other" % (role, "|".join(sorted(vals)))
         return None
+
+
+def _intconst(r):
+    if r.startswith("K") and r[1:].lstrip("-").isdigit():
+        return int(r[1:])
+    return None
 
 
 def _only_consts(o):
